@@ -717,14 +717,16 @@ FLOORS = {'quick': {'nontrivial': 240000,
                     'counters': {'nontrivial:near-miss': 160000, 'nontrivial:hit': 130000,
                                  'find:several-paragraphs-match': 7000, 'op:find-after-reassign': 11000,
                                  'op:match-after-2+-unobserved-assignments': 2000,
-                                 'raw:list-with-whitespace': 2400, 'enum:evaluations': 15000}},
+                                 'raw:list-with-whitespace': 2400, 'raw:matches-observed': 23000,
+                                 'enum:evaluations': 15000}},
           # distinct_nontrivial is bounded by the per-shard recording cap (14 x 400000) in this tier
           'thorough': {'nontrivial': 2700000,
                        'monitors': {'M.match': 14800000, 'M.find': 1400000, 'M.error': 790000, 'M.stale': 530000},
                        'counters': {'nontrivial:near-miss': 6500000, 'nontrivial:hit': 5300000,
                                     'find:several-paragraphs-match': 388000, 'op:find-after-reassign': 440000,
                                     'op:match-after-2+-unobserved-assignments': 84000,
-                                    'raw:list-with-whitespace': 129000, 'enum:evaluations': 200000}}}
+                                    'raw:list-with-whitespace': 129000, 'raw:matches-observed': 700000,
+                                    'enum:evaluations': 200000}}}
 
 LEVEL_TEXT = ('Runtime monitoring: seeded hostile pattern lists and near-miss names (literal expansions of the patterns with '
               '0..2 single-character edits), bounded-exhaustive sweeps of small pattern/name spaces, parsed and built '
